@@ -39,13 +39,16 @@ func (v *Violation) String() string { return v.Class + ": " + v.Detail }
 // goes through Event, whose running hash must be identical when the replay
 // file is executed again.
 type Ctx struct {
-	Tier     string
-	Probes   map[string]int
-	Faults   map[string]int
-	Steps    int
-	KeepLog  bool
-	Log      []string
-	Inter    uint64 // hash of the released-goroutine sequence (E3)
+	Tier    string
+	Probes  map[string]int
+	Faults  map[string]int
+	Steps   int
+	KeepLog bool
+	Log     []string
+	Inter   uint64 // hash of the released-goroutine sequence (E3)
+	// Deadline, when set, lets enumerations stop early (the batch's wall cap);
+	// it only ever truncates an enumeration, it never decides a verdict.
+	Deadline time.Time
 	h        uint64
 	nEvents  int
 	unstable bool
@@ -90,6 +93,18 @@ func (c *Ctx) ProbeN(n string, k int) {
 }
 func (c *Ctx) Fault(kind string) { c.Faults[kind]++ }
 func (c *Ctx) Step()             { c.Steps++ }
+
+// Expired reports whether the batch's wall cap has passed.
+func (c *Ctx) Expired() bool {
+	if c.Deadline.IsZero() {
+		return false
+	}
+	if time.Now().After(c.Deadline) {
+		c.Probes["enumeration-cut-by-wall-cap"] = 1
+		return true
+	}
+	return false
+}
 
 // Outcome of one run.
 type Outcome struct {
